@@ -30,7 +30,7 @@ def fresh_analysis(f):
     return before
 
 
-def run(ctx):
+def _run(ctx):
     ctx.explanation = ('Static clauses on datarepo.c: (a) GUARDED_BY — every access to usagecnt/usagelmt/retained is made with the entry\'s bucket lock held on all paths '
                        '(except stores to a block just allocated and not yet inserted); (b) an inserted entry is freed only after being removed from the table, and only under '
                        'usagelmt == count AND retained == 0, where in used_once the count is the post-value of the atomic increment; the not-inserted duplicate is freed only when '
@@ -180,3 +180,10 @@ def run(ctx):
     # (e) clients in generated code: create / addto_usage_limit pairing (corpus)
     from rules import gen25
     gen25.check_R25e(ctx)
+
+
+
+def run(ctx):
+    _run(ctx)
+    from rules import whowrites
+    whowrites.thorough(ctx, 'C25')
